@@ -1,33 +1,12 @@
 package c15
 
 import (
-	"fmt"
-	"sort"
+	"encoding/json"
 	"testing"
 
-	"verif/internal/core"
 	"verif/internal/gens"
+	"verif/internal/ref/encref"
 )
-
-func explore(t *testing.T, spec gens.StructSpec) map[string]*core.Failure {
-	t.Helper()
-	c := core.NewCtx("quick", 0, 1, 0, 0)
-	ex := &explorer{c: c, subMem: map[string]*caseFails{}, tinfo: map[string]*typeInfo{}}
-	ex.exploreType(spec, true)
-	return c.Failures()
-}
-
-func dump(t *testing.T, fs map[string]*core.Failure) {
-	var sigs []string
-	for s := range fs {
-		sigs = append(sigs, s)
-	}
-	sort.Strings(sigs)
-	for _, s := range sigs {
-		f := fs[s]
-		t.Logf("%d %s\n   case %s\n   exp %s\n   obs %s", f.Count, s, f.Case, f.Exp, f.Obs)
-	}
-}
 
 func spec(parts ...string) gens.StructSpec {
 	var s gens.StructSpec
@@ -40,13 +19,113 @@ func spec(parts ...string) gens.StructSpec {
 			}
 		}
 		if k < 0 || tg < 0 {
-			panic(fmt.Sprint("bad spec ", parts))
+			panic("bad spec")
 		}
 		s = append(s, gens.FieldSpec{Kind: k, Tag: tg})
 	}
 	return s
 }
 
-func TestDebugOne(t *testing.T) {
-	dump(t, explore(t, spec("bytes", "none", "int", ",omitempty")))
+func fake(texts ...string) []result {
+	out := make([]result, len(variants))
+	for i := range out {
+		t := texts[0]
+		if i < len(texts) {
+			t = texts[i]
+		}
+		var tree any
+		if err := json.Unmarshal([]byte(t), &tree); err != nil {
+			out[i] = result{fail: "invalid-output", msg: err.Error(), text: t}
+			continue
+		}
+		out[i] = result{text: t, tree: tree}
+	}
+	return out
+}
+
+// The localisation is tested on hand-made encoder outputs, independent of ojg.
+func TestCompareLocalises(t *testing.T) {
+	sp := spec("int", "none", "[]int", "name")
+	ti := newTypeInfo(sp)
+	ref := encref.EncodeValue(sp.NewValue([]int{0, 0}).Elem(), &encref.Opts{UseTags: true, KeyExact: true})
+	// reference: {"Ab":0,"x1":[]|null}
+	cases := []struct {
+		text string
+		want []fkey
+	}{
+		{`{"Ab":0,"x1":[]}`, nil},
+		{`{"Ab":0,"x1":null}`, nil},
+		{`{"x1":[]}`, []fkey{{0, "missing"}}},
+		{`{"ab":0,"x1":[]}`, []fkey{{0, "wrong-key"}}},
+		{`{"Ab":"0","x1":[]}`, []fkey{{0, "wrong-value:number/string"}}},
+		{`{"Ab":1,"x1":[]}`, []fkey{{0, "wrong-value:number"}}},
+		{`{"Ab":0,"x1":[],"FieldTwo":[]}`, []fkey{{1, "extra"}}},
+		{`{"Ab":0,"x1":[],"zzz":1}`, []fkey{{fUnknown, "extra"}}},
+		{`[1]`, []fkey{{fWhole, "wrong-type:array"}}},
+		{`{"Ab":0`, []fkey{{fWhole, "invalid-output"}}},
+	}
+	for _, c := range cases {
+		cf := ti.compare(ref, fake(c.text), nil)
+		if len(cf.set) != len(c.want) {
+			t.Errorf("%s: got %v want %v", c.text, keys(cf), c.want)
+			continue
+		}
+		for _, k := range c.want {
+			if cf.bits(k) == 0 {
+				t.Errorf("%s: got %v want %v", c.text, keys(cf), c.want)
+			}
+		}
+	}
+}
+
+func keys(cf *caseFails) []fkey {
+	var out []fkey
+	for k := range cf.set {
+		out = append(out, k)
+	}
+	return out
+}
+
+// Where the reference leaves a choice the encoders have to agree.
+func TestCompareAgreement(t *testing.T) {
+	sp := spec("int", "none")
+	ti := newTypeInfo(sp)
+	ref := encref.EncodeValue(sp.NewValue([]int{0}).Elem(), &encref.Opts{KeyExact: true, OmitEmpty: true})
+	// reference: {"Ab"?:0}
+	all := ti.compare(ref, fake(`{"Ab":0}`), nil)
+	if len(all.set) != 0 {
+		t.Errorf("unanimous keep must pass: %v", keys(all))
+	}
+	none := ti.compare(ref, fake(`{}`), nil)
+	if len(none.set) != 0 {
+		t.Errorf("unanimous omit must pass: %v", keys(none))
+	}
+	texts := make([]string, len(variants))
+	for i := range texts {
+		texts[i] = `{}`
+	}
+	texts[len(texts)-1] = `{"Ab":0}`
+	mixed := ti.compare(ref, fake(texts...), nil)
+	if mixed.bits(fkey{0, "disagree:keeps"}) != 1<<uint(len(variants)-1) {
+		t.Errorf("minority keeping must be reported: %v", keys(mixed))
+	}
+}
+
+func TestLattice(t *testing.T) {
+	m := bUseTags | bOmitNil | 2<<bytesShift
+	subs := submasks(m)
+	if len(subs) != 3 {
+		t.Fatalf("submasks of %s: %v", maskName(m), subs)
+	}
+	if maskName(m) != "UseTags+OmitNil+BytesAsArray" {
+		t.Errorf("mask name %s", maskName(m))
+	}
+	off, on := masksFor(spec("bytes", "none"))
+	if len(off) != 96 || len(on) != 96 {
+		t.Errorf("bytes type must get 192 option vectors, got %d+%d", len(off), len(on))
+	}
+	off, on = masksFor(spec("int", "none", "int", "none"))
+	if len(off)+len(on) != 32 {
+		t.Errorf("pair without embedded field: NestEmbed fixed, want 32 vectors, got %d", len(off)+len(on))
+	}
 }
